@@ -37,6 +37,7 @@ type edPeriod struct {
 	start, end, mod uint64
 	alloc           *big.Int
 	distribute      bool
+	id              string // RewardPeriodId: stable for one period across the lists it is re-submitted in
 }
 
 type edEnv struct {
@@ -48,7 +49,8 @@ type edEnv struct {
 	totals  map[string]*big.Int
 	total   *big.Int
 	nid     int
-	tag     string // "edited": every period takes over at its own start block; "midflight": one does not (F27)
+	list    []*edPeriod // the harness's own ledger: the list of the last accepted AddRewardPeriod message
+	tag     string      // "edited": every period takes over at its own start block; "midflight": one does not (F27)
 }
 
 func newEdEnv(rng *Rng, out *Out, onePool bool) *edEnv {
@@ -83,8 +85,11 @@ func (e *edEnv) edit(h uint64, ps []*edPeriod) {
 	for _, p := range ps {
 		au := sdk.NewUintFromBigInt(p.alloc)
 		one := sdk.OneDec()
-		e.nid++
-		rps = append(rps, &clptypes.RewardPeriod{RewardPeriodId: fmt.Sprintf("rp%d", e.nid), RewardPeriodStartBlock: p.start, RewardPeriodEndBlock: p.end,
+		if p.id == "" {
+			e.nid++
+			p.id = fmt.Sprintf("rp%d", e.nid)
+		}
+		rps = append(rps, &clptypes.RewardPeriod{RewardPeriodId: p.id, RewardPeriodStartBlock: p.start, RewardPeriodEndBlock: p.end,
 			RewardPeriodAllocation: &au, RewardPeriodDefaultMultiplier: &one, RewardPeriodDistribute: p.distribute, RewardPeriodMod: p.mod})
 		toks = append(toks, fmt.Sprintf("%d %d %s %d", p.start, p.end, p.alloc, p.mod))
 	}
@@ -102,6 +107,7 @@ func (e *edEnv) edit(h uint64, ps []*edPeriod) {
 		})
 		if res == "ok" {
 			write()
+			e.list = ps
 		}
 	}
 	e.out.Emit(strings.TrimSpace(fmt.Sprintf("rw.edit %d %s", e.ctx.BlockHeight(), strings.Join(toks, " "))), res, "edit."+res, res == "ok")
@@ -111,7 +117,19 @@ func (e *edEnv) edit(h uint64, ps []*edPeriod) {
 func (e *edEnv) block(h uint64, cls string) {
 	e.ctx = e.ctx.WithBlockHeight(int64(h))
 	supBefore := e.app.BankKeeper.GetSupply(e.ctx, "rowan").Amount
-	cur := e.app.ClpKeeper.GetCurrentRewardPeriod(e.ctx, e.app.ClpKeeper.GetRewardsParams(e.ctx))
+	// the current period by the property's rule, from the harness's own ledger of submitted periods
+	// (first period of the list covering the height; mod 0 runs every block) — not from a helper of the code under test
+	var cur *edPeriod
+	for _, p := range e.list {
+		if p.start <= h && h <= p.end {
+			cp := *p
+			if cp.mod == 0 {
+				cp.mod = 1
+			}
+			cur = &cp
+			break
+		}
+	}
 	res := protect(func() string {
 		clp.EndBlocker(e.ctx, e.app.ClpKeeper)
 		return "ok"
@@ -125,12 +143,12 @@ func (e *edEnv) block(h uint64, cls string) {
 	e.out.Emit(fmt.Sprintf("rw.end %d %s", h, delta), fmt.Sprintf("accu=%s minted=%s", accu, delta), cls, !delta.IsZero())
 	curS := "cur=none"
 	if cur != nil {
-		curS = fmt.Sprintf("cur=%d,%d,%s,%d", cur.RewardPeriodStartBlock, cur.RewardPeriodEndBlock, cur.RewardPeriodAllocation, cur.RewardPeriodMod)
+		curS = fmt.Sprintf("cur=%d,%d,%s,%d", cur.start, cur.end, cur.alloc, cur.mod)
 	}
 	e.out.Emit(fmt.Sprintf("chk c20.rwblock tag=clp.endblock.rewards.per-block.%s %d %s %s", e.tag, h, delta, curS), "true", "chk.rwblock", false)
 	e.total.Add(e.total, delta.BigInt())
 	if cur != nil {
-		key := fmt.Sprintf("%d %d %s %d", cur.RewardPeriodStartBlock, cur.RewardPeriodEndBlock, cur.RewardPeriodAllocation, cur.RewardPeriodMod)
+		key := fmt.Sprintf("%d %d %s %d", cur.start, cur.end, cur.alloc, cur.mod)
 		if e.totals[key] == nil {
 			e.totals[key] = big.NewInt(0)
 		}
@@ -169,7 +187,7 @@ func smallPeriod(rng *Rng, start uint64, minEnd uint64) *edPeriod {
 //	    block 15 is not a distribution block and carries 1000; block 16 (B, 1 per block) may create 1.
 func directedMidflight(rng *Rng, out *Out) int {
 	n := 0
-	for _, which := range []int{0, 1} {
+	for _, which := range []int{0, 1, 2} {
 		e := newEdEnv(rng, out, false)
 		e.tag = "midflight"
 		out.Emit("rw.periods", "ok", "periods.empty", false)
@@ -183,6 +201,20 @@ func directedMidflight(rng *Rng, out *Out) int {
 			e.edit(16, []*edPeriod{{start: 10, end: 29, mod: 4, alloc: big.NewInt(20)}})
 			for h := uint64(16); h <= 31; h++ {
 				e.block(h, "end.directed.a")
+				n++
+			}
+		} else if which == 2 {
+			// (c) the running period P=[10..29] 20000 rowan mod 10 is kept unchanged, but the new list
+			// puts the overlapping X=[15..24] 10 rowan mod 5 ahead of it; block 20 is a distribution
+			// block of X, which may create 1 (P had accumulated 9000 over blocks 11..19)
+			e.edit(9, []*edPeriod{{start: 10, end: 29, mod: 10, alloc: big.NewInt(20000), id: "P"}})
+			for h := uint64(9); h <= 19; h++ {
+				e.block(h, "end.directed.c")
+				n++
+			}
+			e.edit(20, []*edPeriod{{start: 15, end: 24, mod: 5, alloc: big.NewInt(10), id: "X"}, {start: 10, end: 29, mod: 10, alloc: big.NewInt(20000), id: "P"}})
+			for h := uint64(20); h <= 31; h++ {
+				e.block(h, "end.directed.c")
 				n++
 			}
 		} else {
@@ -302,7 +334,7 @@ func init() {
 			k := uint64(1 + rng.Intn(2))
 			o := uint64(2 + rng.Intn(int(modA)-1)) // 2 .. modA
 			c := sA + k*modA + o
-			variant := rng.Intn(6)
+			variant := rng.Intn(7)
 			e.tag = "edited"
 			if variant >= 4 {
 				e.tag = "midflight"
@@ -381,6 +413,24 @@ func init() {
 				B = smallPeriod(rng, A.end-uint64(rng.Intn(int(o))), A.end+1)
 				setC(B.end)
 				e.edit(h, withList(A, B, C))
+			case 6: // V7: the running period A is KEPT unchanged but an overlapping period X that started earlier is listed ahead of it: [X, A (, C)]; the cut block is a distribution block of X
+				e.edit(h, withList(A))
+				for ; h < c && blocks < n; h++ {
+					e.block(h, cls)
+					blocks++
+				}
+				modX := uint64(1 + rng.Intn(3))
+				d := modX * uint64(1+rng.Intn(2))
+				if d >= c {
+					d = modX
+				}
+				X := smallPeriod(rng, c-d, c+uint64(rng.Intn(8)))
+				X.mod = modX
+				setC(A.end)
+				if C != nil && C.start <= X.end {
+					C = nil
+				}
+				e.edit(h, withList(X, A, C))
 			case 5: // V6 (F27): the running period itself is edited (smaller allocation and/or other mod / end) between two distribution blocks
 				e.edit(h, withList(A))
 				for ; h < c && blocks < n; h++ {
